@@ -32,6 +32,7 @@ pub fn install_link_hook() {
 
 pub struct Node {
     pub name: String,
+    pub pid: u128,
     pub sup_fut: Option<std::pin::Pin<Box<dyn std::future::Future<Output = ()>>>>,
     pub sup_in: Option<Sender<String>>,
     pub links: Vec<LinkOut>,
@@ -380,7 +381,7 @@ impl World {
         let name = opt_of(role, "name").unwrap_or("n1").to_string();
         let pid: u128 = opt_of(role, "pid").and_then(|p| p.parse().ok()).unwrap_or(1);
         let (dbs, repl_rx, sup_rx) = make_dbs_named(&dir, role_of(role), true, &name, pid);
-        let mut node = Node { name, sup_fut: None, sup_in: None, links: vec![], repl_fut: None, repl_in: None, dbs, repl_rx, sup_rx, sessions: BTreeMap::new(), dir, notices: HashMap::new(), last_dump: vec![] };
+        let mut node = Node { name, pid, sup_fut: None, sup_in: None, links: vec![], repl_fut: None, repl_in: None, dbs, repl_rx, sup_rx, sessions: BTreeMap::new(), dir, notices: HashMap::new(), last_dump: vec![] };
         if role.split(',').any(|o| o == "pump") { node.start_loop(); }
         if role.split(',').any(|o| o == "sup") { node.start_sup(); }
         self.node = Some(node);
@@ -404,7 +405,7 @@ impl World {
             let r = std::panic::catch_unwind(std::panic::AssertUnwindSafe(|| {
                 let (dbs, repl_rx, sup_rx) = make_dbs(&dir, ClusterRole::Primary, false);
                 Databases::load_all_dbs(&dbs);
-                let t = Node { name: "n1".to_string(), sup_fut: None, sup_in: None, links: vec![], repl_fut: None, repl_in: None, dbs, repl_rx, sup_rx, sessions: BTreeMap::new(), dir: dir.clone(), notices: HashMap::new(), last_dump: vec![] };
+                let t = Node { name: "n1".to_string(), pid: 1, sup_fut: None, sup_in: None, links: vec![], repl_fut: None, repl_in: None, dbs, repl_rx, sup_rx, sessions: BTreeMap::new(), dir: dir.clone(), notices: HashMap::new(), last_dump: vec![] };
                 t.dump_meta()
             }));
             if let Some(n) = self.node.as_ref() { nundb::verif::set_data_dir(Some(n.dir.clone())); }
@@ -416,6 +417,8 @@ impl World {
         if cmd.is_empty() { return vec![]; }
         if self.node.is_none() { self.reset("primary"); }
         let n = self.node.as_mut().unwrap();
+        // several nodes share the process: every operation runs against its own node's data directory
+        nundb::verif::set_data_dir(Some(n.dir.clone()));
         match cmd {
             "SESS" => {
                 let sid: usize = match a1.parse() { Ok(s) => s, Err(_) => return vec!["E bad-op".into()] };
@@ -520,13 +523,16 @@ impl World {
                 out
             }
             "RESTART" => {
-                let role = n.dbs.get_role();
+                // RESTART [role]: the process is started again on its data directory (a real start-up begins as StartingUp)
+                let role = if a1.is_empty() { n.dbs.get_role() } else { role_of(a1) };
                 let dir = n.dir.clone();
                 let had_loop = n.repl_in.is_some() || n.repl_fut.is_some();
-                n.repl_fut = None; n.repl_in = None;
+                let had_sup = n.sup_fut.is_some();
+                n.repl_fut = None; n.repl_in = None; n.sup_fut = None; n.sup_in = None; n.links.clear();
                 n.sessions.clear(); n.notices.clear();
+                let (name, pid) = (n.name.clone(), n.pid);
                 let r = std::panic::catch_unwind(std::panic::AssertUnwindSafe(|| {
-                    let (dbs, repl_rx, sup_rx) = make_dbs(&dir, role, false);
+                    let (dbs, repl_rx, sup_rx) = make_dbs_named(&dir, role, false, &name, pid);
                     Databases::load_all_dbs(&dbs);
                     (dbs, repl_rx, sup_rx)
                 }));
@@ -534,15 +540,16 @@ impl World {
                     Ok((dbs, repl_rx, sup_rx)) => {
                         n.dbs = dbs; n.repl_rx = repl_rx; n.sup_rx = sup_rx;
                         if had_loop { n.start_loop(); }
+                        if had_sup { n.start_sup(); }
                         let mut out = vec!["# restarted".to_string()];
-                        if had_loop { out.extend(n.dump_meta()); }
-                        out.extend(n.dump_files());
+                        if had_loop && !had_sup { out.extend(n.dump_meta()); }
+                        if !had_sup { out.extend(n.dump_files()); }
                         out.extend(n.dump_delta());
                         out
                     }
                     Err(_) => {
                         let _ = LAST_PANIC.with(|p| p.borrow_mut().take());
-                        let (dbs, repl_rx, sup_rx) = make_dbs(&dir, role, true);
+                        let (dbs, repl_rx, sup_rx) = make_dbs_named(&dir, role, true, &name, pid);
                         n.dbs = dbs; n.repl_rx = repl_rx; n.sup_rx = sup_rx;
                         vec!["R PANIC restart".to_string()]
                     }
